@@ -28,9 +28,12 @@ package c04
 //         | '{' seq '||' seq '}'                TRY body FINALLY fin
 //         | '{' seq '|' seq '|' seq '}'         TRY body CATCH catch FINALLY fin
 //         | '(' seq ')'                         CALL of a subroutine of the same script (its own frame, same script context)
-// Ops of instance C only (it is deployed from the extended source v.go.txt):
-//         | 'I[' seq ']'                        open a Storage.Find iterator over the own storage, run seq, then consume the iterator
+// Through the token conduit W (wtoken_test.go), from any contract or from a hand-assembled script:
+//         | 'W' mode inst '[' seq ']'           W.<mode><inst>(seq): W reaches inst.run(seq) by CALLT; mode c = no handler,
+//                                               t = W catches the callee's failure (result 71), f = try/finally without catch
 //         | 'Z'                                 ContractManagement.destroy() of the executing instance
+// Op of instance C only (it is deployed from the extended source v.go.txt):
+//         | 'I[' seq ']'                        open a Storage.Find iterator over the own storage, run seq, then consume the iterator
 
 import (
 	"fmt"
@@ -39,11 +42,11 @@ import (
 )
 
 type Op struct {
-	K     byte // E N P D X F ! # ~ r(un) $(pay) T(ry)
+	K     byte // E N P D X F ! # ~ r(un) $(pay) T(ry) w(token conduit) h(andler) ( I Z S
 	ID    int  // position id (pre-order), unique within a program
 	To    int  // r,$: callee instance 0..2
 	Flags int  // r
-	Src   byte // $: g s n
+	Src   byte // $: g s n; w: mode c t f
 	Body  []Op // r,$: sub program; T: try body; h: try part; (: subroutine; S: the hand-assembled script
 	H     []Op // T: handler; h: catch part
 	Fin   []Op // h: finally part
@@ -58,6 +61,10 @@ func renderSeq(sb *strings.Builder, ops []Op) {
 		switch o.K {
 		case 'r':
 			fmt.Fprintf(sb, "%c%x[", instNames[o.To], o.Flags)
+			renderSeq(sb, o.Body)
+			sb.WriteByte(']')
+		case 'w':
+			fmt.Fprintf(sb, "W%c%c[", o.Src, instNames[o.To])
 			renderSeq(sb, o.Body)
 			sb.WriteByte(']')
 		case '$':
@@ -146,6 +153,22 @@ func (p *parser) seqAny(ends string) ([]Op, byte, error) {
 				return nil, 0, err
 			}
 			p.pos += 2
+			b, err := p.seq(']')
+			if err != nil {
+				return nil, 0, err
+			}
+			o.Body = b
+		case 'W':
+			if p.pos+2 >= len(p.s) || p.s[p.pos+2] != '[' {
+				return nil, 0, fmt.Errorf("bad token call at %d in %q", p.pos, p.s)
+			}
+			o.K = 'w'
+			o.Src = p.s[p.pos]
+			o.To = strings.IndexByte(instNames, p.s[p.pos+1])
+			if o.To < pB || strings.IndexByte(wModes, o.Src) < 0 {
+				return nil, 0, fmt.Errorf("bad token call at %d in %q", p.pos, p.s)
+			}
+			p.pos += 3
 			b, err := p.seq(']')
 			if err != nil {
 				return nil, 0, err
@@ -307,7 +330,7 @@ func countOps(ops []Op) (n, levels int) {
 		b, l2 := countOps(o.H)
 		c, l3 := countOps(o.Fin)
 		n += a + b + c
-		if o.K == 'r' || o.K == '$' {
+		if o.K == 'r' || o.K == '$' || o.K == 'w' {
 			l++
 		}
 		levels = max(levels, l, l2, l3)
